@@ -15,7 +15,7 @@ import (
 
 // C16: string functions work on code points. Oracle: reference on []rune.
 
-var c16Alpha = []string{"a", "Z", " ", "\t", "\n", ",", "é", "€", "😀", "́", "ß", "İ"}
+var c16Alpha = []string{"a", "Z", " ", "\t", "\n", ",", "é", "€", "😀", "́", "ß", "İ", "\ufffd"}
 var c16Sub = []string{"a", ",", " ", "é", "😀"}
 
 func enumStr(alpha []string, i int64) string {
